@@ -798,9 +798,17 @@ func binop(op token.Token, t types.Type, x, y value) value {
 		}
 
 	case token.EQL:
+		switch t.Underlying().(type) {
+		case *types.Struct, *types.Array, *types.Interface:
+			return eqValue(t, x, y)
+		}
 		return eqnil(t, x, y)
 
 	case token.NEQ:
+		switch t.Underlying().(type) {
+		case *types.Struct, *types.Array, *types.Interface:
+			return notValue(eqValue(t, x, y))
+		}
 		return !eqnil(t, x, y)
 
 	case token.GTR:
